@@ -54,6 +54,8 @@ func fnName(fn *ssa.Function) string {
 	return fn.String()
 }
 
+var ctxStubs = map[string]string{"context.WithTimeout": "CtxWithTimeoutStub", "context.WithDeadline": "CtxWithDeadlineStub", "context.WithCancel": "CtxWithCancelStub"}
+
 // invoke calls fv with args; the current top frame is positioned at the calling instruction.
 func (e *Engine) invoke(st *State, fv FuncV, args []Value, in ssa.Instruction) {
 	if fv.Bi != nil {
@@ -79,6 +81,13 @@ func (e *Engine) invoke(st *State, fv FuncV, args []Value, in ssa.Instruction) {
 			name = fnName(fn)
 		}
 	}
+	if stub, ok := ctxStubs[name]; ok {
+		if zp := e.prog.ImportedPackage("github.com/protolambda/zrnt/eth2/zzverif"); zp != nil && zp.Func(stub) != nil {
+			e.stubsUsed["override:"+name+" -> the parent context (a deadline never fires by itself; the parent's cancellation stays visible)"]++
+			fn = zp.Func(stub)
+			name = fnName(fn)
+		}
+	}
 	if ov, ok := e.overrides[name]; ok && ov != st.top().fn && (e.overrideGroup[ov] == "" || st.aux["ovr:"+e.overrideGroup[ov]] == 1) {
 		e.stubsUsed["override:"+name]++
 		fn = ov
@@ -88,7 +97,7 @@ func (e *Engine) invoke(st *State, fv FuncV, args []Value, in ssa.Instruction) {
 		res := intr(e, st, args, in)
 		e.deliver(st, res)
 		return
-	} else if strings.HasPrefix(name, zz) && name != zz+"SortSliceStub" {
+	} else if strings.HasPrefix(name, zz) && name != zz+"SortSliceStub" && !strings.HasPrefix(name, zz+"Ctx") {
 		panic("unknown zzverif function " + name)
 	}
 	_, isDefer := in.(*ssa.RunDefers)
